@@ -20,6 +20,7 @@
  * beyond EXCEPTION_MAX_DEPTH: abort with the overflow message and nothing of the body run. */
 #include "common.h"
 #include <errno.h>
+#include <sys/resource.h>
 
 enum { STMT, THROW, THROWNULL, THROWBAD, RETHROW, SEQ, TRY, CALL, DEEP };
 #define MAXFILT 4
@@ -76,30 +77,36 @@ __attribute__((noinline)) static void run_deep(int k, Node* n, var x) {
   (void)pad;
 }
 
-/* the real macros; one arm per filter arity.  This is ONE try site per arity, re-entered recursively through run():
-   the same site is active several times at once whenever blocks of equal arity nest. */
-static void run_try(Node* n, var x) {
-  (void)x;
-  switch (n->nfilt) {
-    case 0: try { run(n->a, x); } catch (e) { emit('h', kind_index(e)); run(n->b, e); } break;
-    case 1: try { run(n->a, x); } catch (e in kind_obj(n->filt[0])) { emit('h', kind_index(e)); run(n->b, e); } break;
-    case 2: try { run(n->a, x); } catch (e in kind_obj(n->filt[0]), kind_obj(n->filt[1])) { emit('h', kind_index(e)); run(n->b, e); } break;
-    case 3: try { run(n->a, x); } catch (e in kind_obj(n->filt[0]), kind_obj(n->filt[1]), kind_obj(n->filt[2])) { emit('h', kind_index(e)); run(n->b, e); } break;
-    default: try { run(n->a, x); } catch (e in kind_obj(n->filt[0]), kind_obj(n->filt[1]), kind_obj(n->filt[2]), kind_obj(n->filt[3])) { emit('h', kind_index(e)); run(n->b, e); } break;
-  }
-}
+/* every throw in a function of its own: the macro's tuple()/$I() temporaries stay out of the recursive frames */
+__attribute__((noinline)) static void do_throw(int k) { throw(kind_obj(k), "kind %i", $I(k)); }
+__attribute__((noinline)) static void do_throw_null(void) { throw(NULL, "null"); }
+__attribute__((noinline)) static void do_throw_bad(int k) { throw(kind_obj(k), "kind %i"); }
+__attribute__((noinline)) static void do_rethrow(var x) { throw(x, "re"); }
+
+/* the real macros; one function — ONE try site — per filter arity, re-entered recursively through run(): the same site
+   is active several times at once whenever blocks of equal arity nest. */
+__attribute__((noinline)) static void run_try0(Node* n, var x) { try { run(n->a, x); } catch (e) { emit('h', kind_index(e)); run(n->b, e); } }
+__attribute__((noinline)) static void run_try1(Node* n, var x) { try { run(n->a, x); } catch (e in kind_obj(n->filt[0])) { emit('h', kind_index(e)); run(n->b, e); } }
+__attribute__((noinline)) static void run_try2(Node* n, var x) { try { run(n->a, x); } catch (e in kind_obj(n->filt[0]), kind_obj(n->filt[1])) { emit('h', kind_index(e)); run(n->b, e); } }
+__attribute__((noinline)) static void run_try3(Node* n, var x) { try { run(n->a, x); } catch (e in kind_obj(n->filt[0]), kind_obj(n->filt[1]), kind_obj(n->filt[2])) { emit('h', kind_index(e)); run(n->b, e); } }
+__attribute__((noinline)) static void run_try4(Node* n, var x) { try { run(n->a, x); } catch (e in kind_obj(n->filt[0]), kind_obj(n->filt[1]), kind_obj(n->filt[2]), kind_obj(n->filt[3])) { emit('h', kind_index(e)); run(n->b, e); } }
 
 static void run(Node* n, var x) {
   switch (n->kind) {
     case STMT: emit('s', n->n); break;
-    case THROW: throw(kind_obj(n->n), "kind %i", $I(n->n)); break;
-    case THROWNULL: throw(NULL, "null"); break;
-    case THROWBAD: throw(kind_obj(n->n), "kind %i"); break;
-    case RETHROW: throw(x, "re"); break;
+    case THROW: do_throw(n->n); break;
+    case THROWNULL: do_throw_null(); break;
+    case THROWBAD: do_throw_bad(n->n); break;
+    case RETHROW: do_rethrow(x); break;
     case SEQ: run(n->a, x); run(n->b, x); break;
     case CALL: run_call(n->a, x); break;
     case DEEP: run_deep(n->n, n->a, x); break;
-    case TRY: run_try(n, x); break;
+    case TRY:
+      switch (n->nfilt) {
+        case 0: run_try0(n, x); break; case 1: run_try1(n, x); break; case 2: run_try2(n, x); break;
+        case 3: run_try3(n, x); break; default: run_try4(n, x); break;
+      }
+      break;
   }
 }
 
@@ -176,6 +183,10 @@ int main(int argc, char** argv) {
   if (argc < 2) { fprintf(stderr, "usage: h_exn <opfile>\n"); return 2; }
   size_t n; char** lines = v_read_lines(argv[1], &n);
   size_t nprog = 0, n_ood = 0, n_dup = 0, n_over = 0;
+  /* room for EXCEPTION_MAX_DEPTH recursive activations of the interpreter under ASan (the main thread's stack grows on demand) */
+  { struct rlimit rl; if (getrlimit(RLIMIT_STACK, &rl) == 0) { rlim_t want = (rlim_t)256 << 20;
+      if (rl.rlim_max != RLIM_INFINITY && want > rl.rlim_max) want = rl.rlim_max;
+      if (rl.rlim_cur == RLIM_INFINITY || rl.rlim_cur < want) { rl.rlim_cur = want; setrlimit(RLIMIT_STACK, &rl); } } }
   /* make sure the main thread's Exception object exists before forking */
   (void)len(current(Exception));
   for (size_t li = 0; li < n; li++) {
